@@ -315,7 +315,7 @@ def run_property(ctx, pid):
             "Go harness props/C04/harness (generators, executor, classification of errors, snapshots, declarative preconditions), "
             "overlay hooks props/C04/overlay/verif_c04.go (read-only accessors), shared evaluators props/common/vinv",
             "model coq/C04/{State,Ops,Step,Refs,Reg}.v (layers 1, 3, 2) is a hand-written restatement of the Go mutators; tied by the step-by-step comparison above (the replay runs step2, the outermost layer, and compares every component of all three layers); "
-            "NodeID/MessageID/CANID (uint32) and int modelled as unbounded Z (arguments stay in range); payload geometry abstracted by an oracle bit, "
+            "NodeID/MessageID/CANID (uint32) and int modelled as unbounded Z (arguments stay in range); payload geometry abstracted by an oracle bit (the value check of attributes and the size limit of a bus are derived in the model), "
             "which the driver checks call by call against the extracted layout model of the C01/C07 stream (coq/C01; harness/c01bridge.go translates the calls)",
             "thorough tier: a sample of histories is additionally replayed inside Coq by vm_compute (coq/C04/CrossCheck.v): for it extraction and OCaml are not trusted",
         ],
